@@ -111,7 +111,7 @@ func scriptMatchersM(ms []absMatcher, yaml bool, present map[string]string) []*M
 	for i := 0; i < len(ms); i++ {
 		m := ms[i]
 		if present != nil && i+1 < len(ms) && m.M == "any" && ms[i+1].M == "any" && m.PH == ms[i+1].PH && m.EOMP == ms[i+1].EOMP &&
-			m.P != ms[i+1].P && present[m.P] != "" && present[m.P] != "absent" && present[ms[i+1].P] != "" && present[ms[i+1].P] != "absent" {
+			m.P != ms[i+1].P && (!m.EOMP || (present[m.P] != "" && present[m.P] != "absent" && present[ms[i+1].P] != "" && present[ms[i+1].P] != "absent")) {
 			p1, p2 := m.P, ms[i+1].P
 			if yaml {
 				p1, p2 = yamlPath(p1), yamlPath(p2)
@@ -646,6 +646,25 @@ func checkC17(c *CheckCtx) error {
 		scs = append(scs, sc)
 		c.nontrivial(sc.Note)
 	}
+	// Type matchers on containers: an array is not a map and an object is not a slice
+	for i, hc := range []struct {
+		t, path string
+		fail    bool
+	}{{"map", "items", true}, {"slice", "obj", true}, {"map", "obj", false}, {"slice", "items", false}} {
+		for _, api := range []string{"json", "sjson"} {
+			sc := &Scenario{ID: fmt.Sprintf("ct%d%s", i, api), Configs: stdConfigs(), Program: []string{"TestA"}}
+			x := &Expect{VID: fmt.Sprintf("ct:%s:%s", hc.t, hc.path), Inj: true}
+			if hc.fail {
+				x = &Expect{MFail: [][2]string{{"Type", hc.path}}}
+			}
+			sc.Procs = append(sc.Procs, &Proc{Spec: procSpec("default"), Steps: []*Step{{Op: "begin", Name: "TestA"},
+				{Op: "match", Name: "TestA", API: api, Cfg: "c", Val: strVal(`{"items":[1,2],"obj":{"a":1}}`), Matchers: []*Matcher{{M: "type", T: hc.t, Paths: []string{hc.path}}}, X: x},
+				{Op: "match", Name: "TestA", API: api, Cfg: "c", Val: strVal(`{"after":true}`)}, {Op: "end", Name: "TestA"}}})
+			sc.Note = fmt.Sprintf("Type[%s](%q) on {items: array, obj: object} via %s, must fail=%v", hc.t, hc.path, api, hc.fail)
+			scs = append(scs, sc)
+			c.nontrivial(sc.Note)
+		}
+	}
 	c.sample(map[string]any{"source": "MC_Docs case", "document": failing[0].D, "matchers": failing[0].MS, "must_be_named": failing[0].Errs})
 	if err := c.runSeq(scs); err != nil {
 		return err
@@ -733,7 +752,59 @@ func checkC16(c *CheckCtx) error {
 	}
 	c.sample(map[string]any{"source": "MC_Docs cases", "note": scs[0].Note})
 	scs = append(scs, jsonNearMiss(c)...)
+	scs = append(scs, sharedMatcherScenarios(c)...)
 	return c.runSeq(scs)
+}
+
+// sharedMatcherScenarios: ONE matcher object (a package-level or table-test matcher) serves
+// several calls; a document lacking one of its paths must not change what it masks later.
+func sharedMatcherScenarios(c *CheckCtx) []*Scenario {
+	var scs []*Scenario
+	ph := `"<Any value>"`
+	ms := []absMatcher{{M: "any", Name: "Any", P: "b", PH: ph, EOMP: false}, {M: "any", Name: "Any", P: "a", PH: ph, EOMP: false}}
+	mk := func(b string) *docCase {
+		d := map[string]string{"a": `"secret"`, "b": b, "n.x": "1", "n.xy": `"s"`, "l.0": "1", "l.1": "true"}
+		out := map[string]string{}
+		for k, v := range d {
+			out[k] = v
+		}
+		out["a"] = ph
+		if b != "absent" {
+			out["b"] = ph
+		}
+		return &docCase{D: d, MS: ms, Out: out}
+	}
+	n := 0
+	for _, api := range []string{"json", "sjson"} {
+		for _, order := range [][2]string{{"absent", "true"}, {"true", "absent"}} {
+			n++
+			sc := &Scenario{ID: fmt.Sprintf("sm%d", n), Configs: stdConfigs(), Program: []string{"TestA", "TestB"}}
+			steps := func(shared string) []*Step {
+				var out []*Step
+				for i, t := range []string{"TestA", "TestB"} {
+					st := docStep(mk(order[i]), api, "c", "str", 0)
+					st.Name = t
+					for _, m := range st.Matchers {
+						m.Shared = shared
+					}
+					out = append(out, &Step{Op: "begin", Name: t}, st, &Step{Op: "end", Name: t})
+				}
+				return out
+			}
+			sc.Procs = append(sc.Procs, &Proc{Spec: procSpec("default"), Steps: steps(fmt.Sprintf("shared%d", n))})
+			sc.Procs = append(sc.Procs, &Proc{Spec: procSpec("ci"), Steps: steps("")})
+			// a third document that differs from TestB's only at a masked path must still pass
+			other := mk(order[1])
+			other.D["a"] = `"another secret"`
+			st := docStep(other, api, "c", "str", 0)
+			st.Name = "TestB"
+			sc.Procs = append(sc.Procs, &Proc{Spec: procSpec("ci"), Steps: []*Step{{Op: "begin", Name: "TestB"}, st, {Op: "end", Name: "TestB"}}})
+			sc.Note = fmt.Sprintf("one shared Any(b, a).ErrOnMissingPath(false) object serves two calls via %s; first document has b=%s", api, order[0])
+			scs = append(scs, sc)
+			c.nontrivial(sc.Note)
+		}
+	}
+	return scs
 }
 
 // jsonNearMiss: documents that differ in as little as possible at a field no matcher covers; the
@@ -785,6 +856,7 @@ var jsonCorpus = []string{
 	`{"k":"---"}`, `{"nested":{"deep":{"deeper":[{"x":1},{"y":[]}]}}}`, `{"é":"ü","z":"\u0041"}`, `{"esc\"aped":"q\\uote","tab":"\t"}`,
 	`{"n":-0,"m":1.0,"big":12345678901234567890,"exp":1e3,"neg":-1.5E-7,"zero":0}`, `[[1,2],[3,4],[],{}]`, `{"a":{"b":{"c":{"d":{"e":{}}}}}}`,
 	`{"long":"` + strings.Repeat("x", 200) + `","arr":[` + strings.Repeat("1,", 60) + `1]}`, `9007199254740993`, `{"id":1541815603606036481}`,
+	`{"p":"100%","u":"a%20b","f":"%d %s %v","%k":"%"}`, `"50%"`,
 }
 
 func respace(s string) string {
